@@ -17,7 +17,8 @@ META = {
                    'managers); z3 searches an interleaving of 2-3 writer threads in which a subscriber gets a higher MdibVersion '
                    'before a lower one; sat schedules are replayed with gated real threads.',
     'outside': ['"every message validates against the bundled SOAP / WS-* / BICEPS schemas": XSD validation is libxml2 (C), not '
-                'encodable with the available engines - NOT decided here', 'socket delivery, the asyncio loop\'s own scheduling, HTTP '
+                'encodable; decided only for the exchanges of C04.wire.messages_validate (real libxml2 validator on every message of '
+                'start-up + one transaction of each of 19 kinds + renew/status/unsubscribe), not for arbitrary MDIB content', 'socket delivery, the asyncio loop\'s own scheduling, HTTP '
                 'layer', 'interleavings finer than lock / send granularity; code paths the recorded transactions did not take',
                 'XML serialisation of the report objects (C05 / C18)', 'more than 3 concurrent writers'],
 }
@@ -92,6 +93,19 @@ def obligations(tier):
                           bounds=f'1 iteration of the retrievability-driven periodic loop x {nw} committing {kd} transaction(s); all '
                                  'interleavings of the recorded lock / mdib_version / table events',
                           claim='the state copies of a periodic report show the values of the MdibVersion they are labelled with'))
+    from harness import loopkit
+    obs.append(Ob('C04.wire.messages_validate', 'harness.C01_wire', 'wire_messages_validate', timeout=max(t, 150),
+                  functions=['sdc11073.pysoap.msgfactory.MessageFactory.serialize_message',
+                             'sdc11073.provider.providerimpl.SdcProvider._send_episodic_reports',
+                             'sdc11073.provider.subscriptionmgr_base.SubscriptionsManagerBase.send_to_subscribers',
+                             'sdc11073.consumer.subscription.ConsumerSubscription.subscribe'],
+                  stubs=loopkit.STUBS + ['provider and consumer run with validate=False so that nothing invalid is held back; an '
+                                         'independent MessageReader(validate=True) on the bundled schemas judges every recorded message',
+                                         'kit MDIB completed with the schema-mandatory members; payload strings from a pool of 3; real '
+                                         'interpreter semantics, selectors chosen by the solver'],
+                  bounds='start-up (GetMetadata, GetMdib, Subscribe), 1 transaction of any of 19 kinds x 3 payloads x flag x 4 selector '
+                         'values, Renew, GetStatus, Unsubscribe: every SOAP request, response and notification of both sides',
+                  claim='every message put on the wire validates against the bundled SOAP, WS-* and BICEPS schemas (for these exchanges)'))
     return obs
 
 
@@ -374,6 +388,6 @@ MANIFEST_ENTRY = {
     'text': 'Content obligations are explored to path exhaustion for all version counters / short payload strings; ordering obligations '
             'are unsat results over all interleavings of 2-3 recorded writer templates (sync and async managers); periodic obligations: '
             'unsat over all interleavings of one loop iteration with 1-2 committing writers (label read identified by taint tracking).',
-    'note': 'Schema validity of the emitted XML is NOT decided (libxml2 XSD engine is outside the technique); ordering at lock/send '
+    'note': 'Schema validity of the emitted XML is decided for a pool of exchanges only (real validator, C04.wire.messages_validate); ordering at lock/send '
             'granularity of recorded templates; delivery below send_to_subscribers (sockets, asyncio loop) is outside.',
 }
